@@ -281,6 +281,8 @@ impl SecondaryTransaction {
                             .expect("sorting key not in column list")
                     })
                     .collect_vec();
+                #[cfg(risinglight_verif)]
+                crate::verif::probe("scan.merge-iterator");
                 MergeIterator::new(
                     iters.into_iter().map(|iter| iter.into()).collect_vec(),
                     real_col_idx,
